@@ -92,9 +92,16 @@ fn must_refuse(kind: &str, raw: &str, root: &str) -> bool {
             let t = raw.trim();
             t.is_empty() || lexically_absolute(t) || lexically_parent(t)
         }
-        3 => lexically_parent(raw) || (lexically_absolute(raw) && !(raw == root || raw.starts_with(&format!("{root}/")))),
+        3 => lexically_parent(raw) || (lexically_absolute(raw) && !inside_componentwise(raw, root)),
         _ => false,
     }
+}
+
+/// absolute `raw` lies below `root` component by component ('' and '.' segments do not count)
+fn inside_componentwise(raw: &str, root: &str) -> bool {
+    let c = |s: &str| -> Vec<String> { s.split('/').filter(|x| !x.is_empty() && *x != ".").map(|x| x.to_string()).collect() };
+    let (a, b) = (c(raw), c(root));
+    a.len() >= b.len() && a[..b.len()] == b[..]
 }
 
 struct Step<'a> {
